@@ -43,7 +43,8 @@ for t in ('DT_YMD', 'DT_YD', 'DT_YMCW', 'DT_YWD'):
       body='\tchar *buf; size_t bsz; struct dt_spec_s s; struct strpd_s *d; struct dt_d_s that; unsigned in_typ = %s;\n'
            '\t__CPROVER_assume(that.typ == (dt_dtyp_t)in_typ);\n\t/*REACH*/\n\t__strfd_card(buf, bsz, s, d, that);' % t,
       reach_hint='__CPROVER_assume(that.u == %s);' % {'DT_YMD': '((2012u << 10) | (12u << 6) | 31u)', 'DT_YD': '((2012u << 16) | 366u)', 'DT_YMCW': '((2012u << 10) | (12u << 6) | (5u << 3) | 1u)', 'DT_YWD': '((2013u << 13) | (1u << 6) | (1u << 3) | 7u)'}[t],
-      replace=['dt_dconv'], native=False, timeout=900, solvers=['cadical'])
+      replace=['dt_dconv'], native=False, timeout=900, solvers=['cadical'], reach=False,
+      note='no reachability twin: finding a model through the assumed dt_dconv contract did not finish in 10 min; non-vacuity is shown by seed C02_1 (the group fails on it), not on every run')
 for t in ('DT_YMD', 'DT_YD', 'DT_YWD', 'DT_DAISY'):
     G('dm.dt_dcmp.' + t[3:], 'date-core', 'dt_dcmp', ['C08'], ins=[(U, 'in_typ'), ('uint32_t', 'in_u1'), ('uint32_t', 'in_u2')], fix={'in_typ': t},
       setup='struct dt_d_s d1 = {DT_DUNK}, d2 = {DT_DUNK}; d1.typ = d2.typ = (dt_dtyp_t)in_typ; d1.u = in_u1; d2.u = in_u2;', call='dt_dcmp(d1, d2)', ret='int',
